@@ -63,6 +63,11 @@ STRICT_CALLS = {"log_message": "log_message", "Action.log": "log", "start_action
                 "continue_task": "continue_task", "serialize_task_id": "serialize_task_id", "preserve_context": "preserve_context"}
 
 
+def _raise_with_locals(exc, nid):
+    marker_local = ("kept", nid)  # noqa: F841 (looked up through the traceback afterwards)
+    raise exc
+
+
 class _TeeLogger(object):
     """An application-defined ILogger: counts what passes through, forwards to the production logger and returns a (truthy) value;
     ILogger.write's return value is unspecified and must not matter to anybody."""
@@ -399,9 +404,18 @@ class Interp(object):
             del info
         else:
             try:
-                raise exc
+                _raise_with_locals(exc, node["nid"])
             except Exception:
+                import sys as _sys
                 self.api("write_traceback", eliot.writeTraceback if node["nid"] % 2 else write_traceback, *self.lg(node["nid"]))
+                # the traceback belongs to the application (it may re-raise, or hand it to a crash reporter): logging leaves it alone
+                tb = _sys.exc_info()[2]
+                while tb is not None and tb.tb_frame.f_code.co_name != "_raise_with_locals":
+                    tb = tb.tb_next
+                if tb is None or tb.tb_frame.f_locals.get("marker_local") != ("kept", node["nid"]):
+                    self.viol("write_traceback altered the application's traceback: the locals of the frame that raised are %r" % (
+                        None if tb is None else dict(tb.tb_frame.f_locals),))
+                del tb
         f = self._fail_fields(exc, getattr(self, "extractors", None))
         f["traceback"] = ANYTEXT
         gt = {"kind": "message", "type": "eliot:traceback", "fields": f, "nid": node["nid"], "tb": True}
